@@ -90,3 +90,244 @@ Section Carrier.
     rewrite nth_error_map in Hwi. rewrite Hn in Hwi. cbn in Hwi. now injection Hwi as <-.
   Qed.
 End Carrier.
+
+(** * The stop rule, from the loop guard only, over the generic carrier *)
+Section Loop.
+  Variable M : Type.
+  Variables (c0 : Z -> M) (madd : M -> M -> M) (mltb : M -> M -> bool) (misz : M -> bool).
+  Variable R : Type.
+  Variable pick : R -> nat -> option (list M) -> res (nat * R).
+  Notation grow := (grow M c0 madd mltb misz R pick).
+  Notation step := (step M c0 misz R pick).
+
+  (** masses of the fragments named by a piece of trajectory *)
+  Fixpoint masses_of (cfg : config M) (l : list srec) : option (list M) :=
+    match l with
+    | [] => Some []
+    | r :: l' => match dict_get (c_masses cfg) (r_fragname r), masses_of cfg l' with
+                 | Some x, Some xs => Some (x :: xs) | _, _ => None end
+    end.
+  Lemma masses_of_app cfg a b xs ys : masses_of cfg a = Some xs -> masses_of cfg b = Some ys ->
+    masses_of cfg (a ++ b) = Some (xs ++ ys).
+  Proof.
+    revert xs. induction a as [|r a IH]; cbn; intros xs.
+    - now intros [= <-].
+    - destruct (dict_get (c_masses cfg) (r_fragname r)); [|discriminate].
+      destruct (masses_of cfg a) as [xs'|]; [|discriminate]. intros [= <-] Hb. now rewrite (IH xs' eq_refl Hb).
+  Qed.
+
+  (** at exit the guard is false for the accumulated weight; the accumulated weight is the left
+      fold of the masses of the fragments added in the loop; before the last addition the guard
+      was true.  With the generated guard [ltb current target]: sum >= target, and < target
+      without the last fragment. *)
+  Theorem stop_rule cfg target fuel : forall rng m cw log m' cw' log' rng',
+    grow cfg target fuel rng m cw log = Ok (m', cw', log', rng') ->
+    exists new ms, log' = log ++ new /\ masses_of cfg new = Some ms /\ cw' = fold_left madd ms cw /\
+      loop_guard mltb cw' target = false /\
+      (forall front last, ms = front ++ [last] -> loop_guard mltb (fold_left madd front cw) target = true).
+  Proof.
+    induction fuel as [|f IH]; intros rng m cw log m' cw' log' rng'; cbn [SampleImpl.grow].
+    - destruct (loop_guard mltb cw target) eqn:G; [discriminate|]. intros [= <- <- <- <-].
+      exists [], []. rewrite app_nil_r. repeat split; try assumption. intros [|? ?] ? H; discriminate.
+    - destruct (loop_guard mltb cw target) eqn:G.
+      + destruct (step cfg rng m) as [[[m1 r] rng1]|] eqn:E; cbn [bind]; [|discriminate].
+        destruct (dict_get (c_masses cfg) (r_fragname r)) as [x|] eqn:Ex; cbn [of_option bind]; [|discriminate].
+        intros H. destruct (IH _ _ _ _ _ _ _ _ H) as [new [ms [Hl [Hm [Hc [Hg Hf]]]]]].
+        exists (r :: new), (x :: ms). split; [rewrite Hl, <- app_assoc; reflexivity|].
+        split; [cbn; rewrite Ex, Hm; reflexivity|]. split; [assumption|]. split; [assumption|].
+        intros front last Hfl. destruct front as [|y front].
+        * cbn. assumption.
+        * cbn in Hfl. injection Hfl as <- Hms. cbn. eapply Hf. eassumption.
+      + intros [= <- <- <- <-]. exists [], []. rewrite app_nil_r. repeat split; try assumption.
+        intros [|? ?] ? H; discriminate.
+  Qed.
+End Loop.
+
+(** the stop rule at Z, in the words of C17 *)
+Corollary stop_rule_Z (R : Type) pick cfg target fuel rng m log m' cw' log' rng' :
+  grow Z (fun z => z) Z.add Z.ltb (Z.eqb 0) R pick cfg target fuel rng m 0 log = Ok (m', cw', log', rng') ->
+  exists new ms, log' = log ++ new /\ masses_of Z cfg new = Some ms /\
+    target <= zsum ms /\ (forall front last, ms = front ++ [last] -> zsum front < target).
+Proof.
+  intros H. apply stop_rule in H. destruct H as [new [ms [Hl [Hm [Hc [Hg Hf]]]]]].
+  assert (FS : forall l a, fold_left Z.add l a = a + zsum l).
+  { unfold zsum. induction l as [|x l IH]; intros a; cbn [fold_left fold_right]; [lia|]. rewrite IH. lia. }
+  exists new, ms. split; [assumption|]. split; [assumption|]. unfold loop_guard in *. split.
+  - rewrite Hc, FS in Hg. apply Z.ltb_ge in Hg. lia.
+  - intros front last E. specialize (Hf front last E). rewrite FS in Hf. apply Z.ltb_lt in Hf. lia.
+Qed.
+
+(** * One growth step *)
+Lemma find_update_same k f ns : (forall n, n_key (f n) = n_key n) ->
+  find_node k (update_node k f ns) = option_map f (find_node k ns).
+Proof.
+  intros Hf. induction ns as [|n r IH]; cbn; [reflexivity|].
+  destruct (Z.eqb_spec (n_key n) k) as [E|N]; cbn.
+  - rewrite Hf, E, Z.eqb_refl. reflexivity.
+  - destruct (Z.eqb_spec (n_key n) k); [contradiction|assumption].
+Qed.
+Lemma find_update_other k k' f ns : (forall n, n_key (f n) = n_key n) -> k <> k' ->
+  find_node k (update_node k' f ns) = find_node k ns.
+Proof.
+  intros Hf N. induction ns as [|n r IH]; cbn; [reflexivity|].
+  destruct (Z.eqb_spec (n_key n) k') as [E|N']; cbn.
+  - rewrite Hf. destruct (Z.eqb_spec (n_key n) k); [congruence|reflexivity].
+  - destruct (Z.eqb_spec (n_key n) k); [reflexivity|assumption].
+Qed.
+Lemma set_bonding_key b n : n_key (set_bonding b n) = n_key n. Proof. reflexivity. Qed.
+Definition kf (n : mnode) : Z * Z := (n_key n, n_fragid n).
+Lemma update_kf k b ns : map kf (update_node k (set_bonding b) ns) = map kf ns.
+Proof. induction ns as [|n r IH]; cbn; [reflexivity|]. destruct (Z.eqb (n_key n) k); cbn; [reflexivity|now rewrite IH]. Qed.
+
+Lemma cnt_remove1_same d l l' : remove1 d l = Some l' -> (cnt d l' + 1 = cnt d l)%nat.
+Proof.
+  revert l'. induction l as [|x r IH]; cbn; intros l'; [discriminate|].
+  destruct (str_eqb_spec d x) as [->|N].
+  - intros [= <-]. lia.
+  - destruct (remove1 d r) as [r'|]; [|discriminate]. intros [= <-]. cbn.
+    destruct (str_eqb_spec d x); [contradiction|]. specialize (IH r' eq_refl). lia.
+Qed.
+Lemma cnt_remove1_other d e l l' : d <> e -> remove1 e l = Some l' -> cnt d l' = cnt d l.
+Proof.
+  intros N. revert l'. induction l as [|x r IH]; cbn; intros l'; [discriminate|].
+  destruct (str_eqb_spec e x) as [->|N2].
+  - intros [= <-]. destruct (str_eqb_spec d x); [contradiction|reflexivity].
+  - destruct (remove1 e r) as [r'|]; [|discriminate]. intros [= <-]. cbn. now rewrite (IH r' eq_refl).
+Qed.
+Lemma cnt_filter_le d f l : (cnt d (filter f l) <= cnt d l)%nat.
+Proof. induction l as [|x r IH]; cbn; [lia|]. destruct (f x); cbn; lia. Qed.
+
+Lemma remove_desc_inv ns k d ns' : remove_desc ns k d = Ok ns' ->
+  exists n ds ds', find_node k ns = Some n /\ n_bonding n = Some ds /\ remove1 d ds = Some ds' /\
+                   ns' = update_node k (set_bonding (Some ds')) ns.
+Proof.
+  unfold remove_desc. destruct (find_node k ns) as [n|]; cbn [of_option bind]; [|discriminate].
+  destruct (n_bonding n) as [ds|] eqn:B; cbn [of_option bind]; [|discriminate].
+  destruct (remove1 d ds) as [ds'|] eqn:E; cbn [of_option bind]; [|discriminate].
+  intros [= <-]. exists n, ds, ds'. repeat split; assumption.
+Qed.
+
+Section Step.
+  Variable M : Type.
+  Variables (c0 : Z -> M) (misz : M -> bool).
+  Variable R : Type.
+  Variable pick : R -> nat -> option (list M) -> res (nat * R).
+  Notation step_select := (step_select M c0 misz R pick).
+  Notation step_apply := (@step_apply M).
+  Variable cfg : config M.
+
+  (** the four decisions: the site is an open descriptor, the partner is complementary *)
+  Theorem select_complementary rng ob s rng' : step_select cfg rng ob = Ok (s, rng') ->
+    In (s_bonding s) (map fst ob) /\
+    (exists srcs, dict_get ob (s_bonding s) = Some srcs /\ In (s_source s) srcs) /\
+    In (s_compl s) (map fst (c_byb cfg)) /\
+    (kind_in_domain (s_bonding s) = true -> compl_spec (s_bonding s) (s_compl s) = true) /\
+    In (s_fragname s, s_tnode s) (dict_get_default (c_byb cfg) (s_compl s) []).
+  Proof.
+    unfold SampleImpl.step_select.
+    destruct (select_op M c0 misz R pick rng (map fst ob) (Some (c_poly cfg))) as [[[b i1] r1]|] eqn:E1; cbn [bind]; [|discriminate].
+    destruct (dict_get ob b) as [srcs|] eqn:E2; cbn [of_option bind]; [|discriminate].
+    destruct (choose M misz R pick r1 srcs None) as [[[src i2] r2]|] eqn:E3; cbn [bind]; [|discriminate].
+    destruct (find_complementary_bonding_descriptor b (map fst (c_byb cfg))) as [cb|] eqn:E4; cbn [bind]; [|discriminate].
+    destruct (select_op M c0 misz R pick r2 cb (dict_get (c_fragreact cfg) b)) as [[[c i3] r3]|] eqn:E5; cbn [bind]; [|discriminate].
+    destruct (choose M misz R pick r3 (dict_get_default (c_byb cfg) c []) None) as [[[ft i4] r4]|] eqn:E6; cbn [bind]; [|discriminate].
+    intros [= <- <-]. cbn.
+    apply select_op_ok in E1 as [H1 _]. apply choose_ok in E3 as [H3 _]. apply select_op_ok in E5 as [H5 _].
+    apply choose_ok in E6 as [H6 _]. destruct (find_compl_sound _ _ _ E4 c H5) as [Hin Hc].
+    split; [assumption|]. split; [exists srcs; split; [assumption|eapply nth_error_In; eassumption]|].
+    split; [assumption|]. split; [assumption|]. destruct ft. eapply nth_error_In; eassumption.
+  Qed.
+
+  (** zero reactivities: with a non-empty polymer table the site has non-zero weight; with a
+      non-empty conditional table for the site the partner has non-zero conditional weight *)
+  Theorem select_nonzero rng ob s rng' : step_select cfg rng ob = Ok (s, rng') ->
+    (match c_poly cfg with kv :: p => misz (dict_get_default (kv :: p) (s_bonding s) (c0 0)) = false | [] => True end) /\
+    (match dict_get (c_fragreact cfg) (s_bonding s) with
+     | Some (kv :: p) => misz (dict_get_default (kv :: p) (s_compl s) (c0 0)) = false
+     | _ => True end).
+  Proof.
+    unfold SampleImpl.step_select.
+    destruct (select_op M c0 misz R pick rng (map fst ob) (Some (c_poly cfg))) as [[[b i1] r1]|] eqn:E1; cbn [bind]; [|discriminate].
+    destruct (dict_get ob b) as [srcs|] eqn:E2; cbn [of_option bind]; [|discriminate].
+    destruct (choose M misz R pick r1 srcs None) as [[[src i2] r2]|] eqn:E3; cbn [bind]; [|discriminate].
+    destruct (find_complementary_bonding_descriptor b (map fst (c_byb cfg))) as [cb|] eqn:E4; cbn [bind]; [|discriminate].
+    destruct (select_op M c0 misz R pick r2 cb (dict_get (c_fragreact cfg) b)) as [[[c i3] r3]|] eqn:E5; cbn [bind]; [|discriminate].
+    destruct (choose M misz R pick r3 (dict_get_default (c_byb cfg) c []) None) as [[[ft i4] r4]|] eqn:E6; cbn [bind]; [|discriminate].
+    intros [= <- <-]. cbn. split.
+    - unfold SampleImpl.select_op in E1. destruct (c_poly cfg) as [|kv p]; [exact I|].
+      apply choose_ok in E1 as [Hn [wi [Hw Hz]]]. unfold select_weights in Hw. rewrite nth_error_map, Hn in Hw.
+      cbn in Hw. now injection Hw as <-.
+    - unfold SampleImpl.select_op in E5. destruct (dict_get (c_fragreact cfg) b) as [[|kv p]|]; try exact I.
+      apply choose_ok in E5 as [Hn [wi [Hw Hz]]]. unfold select_weights in Hw. rewrite nth_error_map, Hn in Hw.
+      cbn in Hw. now injection Hw as <-.
+  Qed.
+
+  (** shape of the molecule after the deterministic part of the step *)
+  Lemma step_apply_inv m s m' tgt : step_apply cfg m s = Ok (m', tgt) ->
+    exists tpl off fo es ns1 ns2 order,
+      dict_get (c_frags cfg) (s_fragname s) = Some tpl /\ merge_offsets m = Ok (off, fo) /\
+      mk_edges (mk_corr off 0 (f_nodes tpl)) (f_edges tpl) = Ok es /\
+      assocz (s_tnode s) (mk_corr off 0 (f_nodes tpl)) = Some tgt /\
+      remove_desc (m_nodes m ++ mk_nodes fo off 0 (f_nodes tpl)) (s_source s) (s_bonding s) = Ok ns1 /\
+      remove_desc ns1 tgt (s_compl s) = Ok ns2 /\
+      terminal_step (c_term cfg) (s_compl s) ns2 (s_source s) = Ok (m_nodes m') /\
+      m_edges m' = (m_edges m ++ es) ++ [{| e_u := s_source s; e_v := tgt; e_bonding := Some (s_bonding s, s_compl s);
+                                            e_attrs := [(S "order", VInt order)] |}].
+  Proof.
+    unfold SampleImpl.step_apply, merge_graphs.
+    destruct (dict_get (c_frags cfg) (s_fragname s)) as [tpl|] eqn:D1; cbn [of_option bind]; [|discriminate].
+    destruct (merge_offsets m) as [[off fo]|] eqn:D2; cbn [bind]; [|discriminate].
+    destruct (mk_edges (mk_corr off 0 (f_nodes tpl)) (f_edges tpl)) as [es|] eqn:D3; cbn [bind]; [|discriminate].
+    destruct (assocz (s_tnode s) (mk_corr off 0 (f_nodes tpl))) as [t|] eqn:D4; cbn [of_option bind]; [|discriminate].
+    destruct (py_last (s_bonding s)) as [ch|]; cbn [bind]; [|discriminate].
+    destruct (py_int [ch]) as [order|]; cbn [bind]; [|discriminate].
+    cbn [m_nodes m_edges].
+    destruct (remove_desc _ (s_source s) (s_bonding s)) as [ns1|] eqn:E1; cbn [bind]; [|discriminate].
+    destruct (remove_desc ns1 t (s_compl s)) as [ns2|] eqn:E2; cbn [bind]; [|discriminate].
+    destruct (terminal_step (c_term cfg) (s_compl s) ns2 (s_source s)) as [ns3|] eqn:E3; cbn [bind]; [|discriminate].
+    intros [= <- <-]. exists tpl, off, fo, es, ns1, ns2, order. cbn. repeat split; try reflexivity; assumption.
+  Qed.
+
+  (** terminal handling, the two branches after the bond *)
+  Theorem terminal_closes_atom m s m' tgt : step_apply cfg m s = Ok (m', tgt) ->
+    str_in (s_compl s) (c_term cfg) = true ->
+    exists n, find_node (s_source s) (m_nodes m') = Some n /\ n_bonding n = None.
+  Proof.
+    intros H T. destruct (step_apply_inv _ _ _ _ H) as (tpl & off & fo & es & ns1 & ns2 & o & _ & _ & _ & _ & _ & _ & H3 & _).
+    unfold terminal_step in H3. destruct (find_node (s_source s) ns2) as [n|] eqn:F; cbn [of_option bind] in H3; [|discriminate].
+    rewrite T in H3. destruct (n_bonding n); [|discriminate]. injection H3 as <-.
+    rewrite find_update_same, F by apply set_bonding_key. eexists. split; reflexivity.
+  Qed.
+  Theorem terminal_withdrawn m s m' tgt : step_apply cfg m s = Ok (m', tgt) ->
+    str_in (s_compl s) (c_term cfg) = false ->
+    exists n ds, find_node (s_source s) (m_nodes m') = Some n /\ n_bonding n = Some ds /\
+                 Forall (fun d => str_in d (c_term cfg) = false) ds.
+  Proof.
+    intros H T. destruct (step_apply_inv _ _ _ _ H) as (tpl & off & fo & es & ns1 & ns2 & o & _ & _ & _ & _ & _ & _ & H3 & _).
+    unfold terminal_step in H3. destruct (find_node (s_source s) ns2) as [n|] eqn:F; cbn [of_option bind] in H3; [|discriminate].
+    rewrite T in H3. injection H3 as <-.
+    rewrite find_update_same, F by apply set_bonding_key. eexists. eexists. split; [reflexivity|]. split; [reflexivity|].
+    apply Forall_forall. intros d Hd. apply filter_In in Hd as [_ Hd]. now apply negb_true_iff in Hd.
+  Qed.
+  (** an atom without 'bonding' never gets descriptors again (it cannot even be selected) *)
+  Theorem closed_stays_closed m s m' tgt k n : step_apply cfg m s = Ok (m', tgt) ->
+    find_node k (m_nodes m) = Some n -> n_bonding n = None ->
+    exists n', find_node k (m_nodes m') = Some n' /\ n_bonding n' = None.
+  Proof.
+    intros H F B. destruct (step_apply_inv _ _ _ _ H) as (tpl & off & fo & es & ns1 & ns2 & o & _ & _ & _ & _ & H1 & H2 & H3 & _).
+    assert (F0 : find_node k (m_nodes m ++ mk_nodes fo off 0 (f_nodes tpl)) = Some n).
+    { clear - F. induction (m_nodes m) as [|x r IH]; cbn in *; [discriminate|]. destruct (Z.eqb (n_key x) k); auto. }
+    apply remove_desc_inv in H1 as (n1 & ds1 & ds1' & Fa & Ba & _ & ->).
+    assert (Nk1 : k <> s_source s) by (intros ->; rewrite F0 in Fa; injection Fa as <-; congruence).
+    assert (F1 : find_node k (update_node (s_source s) (set_bonding (Some ds1')) (m_nodes m ++ mk_nodes fo off 0 (f_nodes tpl))) = Some n)
+      by (rewrite find_update_other by (try apply set_bonding_key; assumption); assumption).
+    apply remove_desc_inv in H2 as (n2 & ds2 & ds2' & Fb & Bb & _ & ->).
+    assert (Nk2 : k <> tgt) by (intros ->; rewrite F1 in Fb; injection Fb as <-; congruence).
+    unfold terminal_step in H3.
+    match type of H3 with context [find_node (s_source s) ?l] => destruct (find_node (s_source s) l) as [n3|] end;
+      cbn [of_option bind] in H3; [|discriminate].
+    exists n. split; [|assumption].
+    destruct (str_in (s_compl s) (c_term cfg)); [destruct (n_bonding n3); [|discriminate]|]; injection H3 as <-;
+      rewrite !find_update_other by (try apply set_bonding_key; assumption); assumption.
+  Qed.
+End Step.
